@@ -318,6 +318,14 @@ def run(scn: Dict[str, Any]) -> TcpRun:
         sim = ctx.sim
         out.sim = sim
         for i, d in enumerate(cfg["devices"]):
+            d = dict(d)
+            for c in cfg["clients"]:
+                if c["device"] == i and c.get("irset") is not None:
+                    # the thermostat model obeys the IR codes of the remote its user holds
+                    d["ir_table"] = {w["Para"] + "|" + w["HexCode"]: w["Key"] for w in c["irset"]["IRWaveList"]}
+                    d["ir_toggle"] = c["irset"]["OnOffType"] == 1
+                    from refs.irsets import SPECIAL_IDS
+                    d["ir_special"] = c["irset"]["IRSetID"] in SPECIAL_IDS
             out.devices.append(DeviceModel(sim, d, salt=cfg.get("sched", 0) * 16 + i))
         for i, c in enumerate(cfg["clients"]):
             dev = out.devices[c["device"]]
